@@ -69,7 +69,8 @@ class PerModeCubic(ex.nonlin_fun.BaseNonlinearFun):
         return self.a * u_hat - self.b * u_hat**3 / (1 + jnp.abs(u_hat) ** 2) + 1j * self.c * u_hat
 
 
-Z_STRATA = ["zero", "real_neg", "real_pos", "imag", "left_half", "right_complex", "mixed"]
+Z_STRATA = ["zero", "real_neg", "real_pos", "imag", "left_half", "right_complex", "special", "mixed"]
+SPECIAL_Z = [-1.0, -0.5, -2.0, -1.5, -0.25, -4.0, -3.0, 1j, -1j, 0.5j, -0.5j, 2j, -2j, 1.5j, -1.5j, -1 + 1j, -1 - 1j, 1.0, 0.5, 2.0, 0.0]
 NONLINS = ["quad", "cubic", "conv"]
 NMODES = 9  # = N//2+1 for N = 16 (needed by the convection variant)
 
@@ -110,7 +111,7 @@ def a_strategy(stratum, tier):
             order=st.just(stratum["order"]),
             nl=st.just(stratum["nl"]),
             et=st.lists(st.tuples(u01, u01).map(list), min_size=NMODES, max_size=NMODES),
-            kinds=st.lists(st.sampled_from(Z_STRATA[:-1]), min_size=NMODES, max_size=NMODES),
+            kinds=st.lists(st.sampled_from(Z_STRATA[:6]), min_size=NMODES, max_size=NMODES),
             dt=gens.log_floats(1e-3, 50.0),
             abc=st.lists(gens.coef(-1.5, 1.5), min_size=3, max_size=3),
             seed=gens.st_seed(),
@@ -124,13 +125,20 @@ def a_check(case):
     res = R()
     p, nl, dt = case["order"], case["nl"], case["dt"]
     kinds = case["kinds"] if case["z"] == "mixed" else [case["z"]] * NMODES
-    z = np.array([_z_of(k, e, t) for k, (e, t) in zip(kinds, case["et"])], dtype=complex)
+    if case["z"] == "special":
+        # exact values on / near the contour circle of radius r (a contour node on the pole lr = 0 gives NaN)
+        r_ = case["contour"][0]
+        sp = SPECIAL_Z + [-r_, -2 * r_, -r_ / 2, 1j * r_, -1j * r_, r_]
+        perm_ = np.random.default_rng(case["seed"]).permutation(len(sp))
+        z = np.array([sp[i] for i in perm_[:NMODES]], dtype=complex)
+    else:
+        z = np.array([_z_of(k, e, t) for k, (e, t) in zip(kinds, case["et"])], dtype=complex)
     lam = (z / dt)[None, :]
     res.tag("A", case["z"], "order%d" % p, nl, "r=%g,M=%d" % tuple(case["contour"]))
     key = "C02:integrator:order%d:%s" % (p, case["z"])
     az = np.abs(z[z != 0])
     spread = (math.log10(az.max() / az.min()) if az.size else 0.0)
-    res.nontrivial = bool(spread >= 3 or case["z"] in ("zero", "mixed", "right_complex", "left_half"))
+    res.nontrivial = bool(spread >= 3 or case["z"] in ("zero", "mixed", "right_complex", "left_half", "special"))
     a, b, c = case["abc"]
     if nl == "quad":
         nf = PerModeQuadratic(a, b, c)
